@@ -61,6 +61,9 @@ func c15Dir() string {
 var intIll = []string{"abc", "1e3", "", "1.5", "99999999999999999999"}
 var boolIll = []string{"maybe", "yes!", "2"}
 
+// c15Plain: default texts that print the way the dumped field prints (integers, booleans, plain words).
+var c15Plain = regexp.MustCompile(`^(-?[0-9]+|true|false|[a-z][A-Za-z0-9._-]*)$`)
+
 func c15Bases() []base {
 	d := c15Dir()
 	return []base{
@@ -203,6 +206,11 @@ func dumpValue(out map[string]string, path string, v reflect.Value, depth int) {
 				dumpValue(out, p, v.Field(i), depth+1)
 				continue
 			}
+			if tag, ok := f.Tag.Lookup("PluginAttribute"); ok {
+				if _, def, has := tagParts(tag); has {
+					out["@declared:"+path+"."+f.Name] = def
+				}
+			}
 			dumpValue(out, path+"."+f.Name, v.Field(i), depth+1)
 		}
 	case reflect.Slice:
@@ -231,12 +239,15 @@ func dumpString(m map[string]string) string {
 func dumpDiff(a, b map[string]string, ignore string) string {
 	var d []string
 	for k, v := range a {
+		if strings.HasPrefix(k, "@declared:") {
+			continue // declarations (struct tags), not values
+		}
 		if k != ignore && !strings.HasPrefix(k, ignore+".") && b[k] != v {
 			d = append(d, fmt.Sprintf("%s: %q vs %q", k, v, b[k]))
 		}
 	}
 	for k, v := range b {
-		if _, ok := a[k]; !ok && k != ignore && !strings.HasPrefix(k, ignore+".") {
+		if _, ok := a[k]; !ok && k != ignore && !strings.HasPrefix(k, ignore+".") && !strings.HasPrefix(k, "@declared:") {
 			d = append(d, fmt.Sprintf("%s: (absent) vs %q", k, v))
 		}
 	}
@@ -315,7 +326,7 @@ func (b base) apply(m map[string]string, d dev) (mustFail bool, path, val string
 		if a.def == "!err" {
 			return true, "", "", true
 		}
-		return false, a.path, a.def, true
+		return false, a.path, "@default:" + a.def, true
 	case "ill":
 		if _, present := m[a.k]; !present {
 			return false, "", "", false
@@ -358,7 +369,7 @@ func (b base) apply(m map[string]string, d dev) (mustFail bool, path, val string
 		if a.def == "!err" {
 			return true, "", "", true
 		}
-		return false, a.path, a.def, true
+		return false, a.path, "@default:" + a.def, true
 	case "inline-broken":
 		// the plugin's sub-tree as an inline expression with a syntax error: Refresh must fail
 		ps := strings.SplitN(a.k, ".", 3)
@@ -480,6 +491,15 @@ func c15Check(c c15Case) (string, []Violation, int) {
 		ign := ""
 		for p, want := range expect {
 			ign = p
+			if hard, isDef := strings.CutPrefix(want, "@default:"); isDef {
+				// "else its declared default": the declaration is the struct tag of the live plugin (a tree may
+				// declare another default than the pinned one); the table value is used where the tag's text is
+				// not directly comparable with the dumped field (level ranges, policies, elements)
+				want = hard
+				if decl, has := got["@declared:"+p]; has && c15Plain.MatchString(decl) && c15Plain.MatchString(hard) {
+					want = decl
+				}
+			}
 			if got[p] != want {
 				fail("attribute-value", fmt.Sprintf("%s is %q, want %q (%s)", p, got[p], want, confString(m)))
 			}
